@@ -9,6 +9,7 @@ REGISTRY = {
     'C02': ('vf.checks.c02_check', lambda m: m.main()),
     'C06': ('vf.checks.c06_check', lambda m: m.main()),
     'C07': ('vf.checks.c07_check', lambda m: m.main()),
+    'C08': ('vf.checks.c08_check', lambda m: m.main()),
     'C11': ('vf.checks.emis_check', lambda m: m.main('C11')),
     'C12': ('vf.checks.c12_check', lambda m: m.main()),
     'C15': ('vf.checks.c15_check', lambda m: m.main()),
